@@ -224,6 +224,29 @@ def _merge(parts):
     }
 
 
+def _concurrency(nshards):
+    """How many shards run at the same time. The SHARDS themselves (and so every generated case) do not depend on this;
+    importing the library costs ~0.7 GB per process, so the number of concurrent workers follows the memory that is there."""
+    limit = None
+    for p in ('/sys/fs/cgroup/memory.max', '/sys/fs/cgroup/memory/memory.limit_in_bytes'):
+        try:
+            v = open(p).read().strip()
+            if v.isdigit() and int(v) < 1 << 60:
+                limit = int(v)
+                break
+        except OSError:
+            pass
+    try:
+        for line in open('/proc/meminfo'):
+            if line.startswith('MemAvailable:'):
+                avail = int(line.split()[1]) * 1024
+                limit = avail if limit is None else min(limit, avail)
+    except OSError:
+        pass
+    by_mem = nshards if limit is None else max(1, int((limit - (1 << 30)) // int(1.5 * (1 << 30))))
+    return max(1, min(nshards, os.cpu_count() or 1, by_mem))
+
+
 def main():
     _bootstrap()
     ap = argparse.ArgumentParser()
@@ -271,7 +294,8 @@ def main():
         from concurrent.futures import ProcessPoolExecutor
         from concurrent.futures.process import BrokenProcessPool
         try:
-            with ProcessPoolExecutor(max_workers=min(nshards, os.cpu_count() or 1), mp_context=mp.get_context('spawn')) as pool:
+            with ProcessPoolExecutor(max_workers=_concurrency(nshards), mp_context=mp.get_context('spawn'),
+                                     max_tasks_per_child=1) as pool:
                 parts = list(pool.map(_worker, jobs, chunksize=1))
         except BrokenProcessPool as e:
             print(f"HARNESS-ERROR a worker process of the {a.tier} tier died abruptly ({e}); nothing is concluded from this run")
